@@ -41,6 +41,11 @@ CHECKS = {
             "Generated operations, dimensions (every n in 1..40 and the listed large ones), scalars incl. INT32_MIN, keys and contents with an exact phase-linearity oracle; exhaustive over the extraction index for every power-of-two N<=1024 and k<=3.",
             "Guard pages detect out-of-bounds accesses of the inline assembly only when they leave the array into the slack or the adjacent page.",
             "DESIGN.md §3 C14"),
+    "C08": ("exploration", "E2+E1+E5",
+            "exhaustive sweep of all 2^32 mask values on a harness-built noise-free key-switching key + rapidcheck over layouts/dimensions/boundary masks with an exact phase identity (also on library-generated noisy keys, whose row errors are measured first) + z=6 moment tests over >=2e4 (quick) / >=1e5 (thorough) real-key samples",
+            "Exhaustive over a mask coefficient for the default layout (quick) and ten layouts (thorough); generated layouts, dimension pairs (incl. 1 and non-multiples of 8) and boundary masks with an exact-identity oracle, so no tolerance is involved except in the summary statistics.",
+            "Noise-free rows are written through the public structure by the harness. The unbiasedness clause is checked as the exact sum over the exhaustive sweep.",
+            "DESIGN.md §3 C08"),
 }
 
 ALL = ["C%02d" % k for k in range(1, 21)]
